@@ -8,6 +8,7 @@
            d<id>          drop                                    -> `ok` | `noop`
            p<n>           can_allocate(n)                         -> `ok` | `viol` | `panic`
        answer: `<outcome>,<size after>;…|<size before cleanup>|<underflows>`
+  alloc size <xvalue>,<bigint>,<fenced>,<usize> <kind> <n>…   -> `<XValue::size> <payload>` of a value shape
   The shape of `allocate` (does it roll back?) is the one generated from the sources.
 -/
 import XrayModel.Alloc
@@ -69,6 +70,24 @@ def allocEngine (f : String) (args : List String) : String :=
           let (r', o) := allocStepShow sh acc.1 ke.1 ke.2
           (r', o :: acc.2)) (fresh limit, [])
         String.intercalate ";" outs.reverse ++ s!"|{r.st.size}|{r.underflows}"
+    | _, _ => "bad-op"
+  | "size", cs :: kind :: ns =>
+    match (cs.splitOn ",").mapM String.toNat?, ns.mapM String.toNat? with
+    | some [xv, bi, fs, us], some ns =>
+      let c : Consts := { xvalue := xv, bigint := bi, fencedString := fs, usize := us }
+      let v? : Option Val :=
+        match kind, ns with
+        | "intShort", [] => some .intShort
+        | "intLong", [d] => some (.intLong d)
+        | "float", [] => some .float
+        | "bool", [] => some .bool
+        | "string", [b, k] => some (.string b k)
+        | "struct", [n] => some (.structInstance n)
+        | "fn", [n] => some (.userFunction n)
+        | _, _ => none
+      match v? with
+      | some v => s!"{v.size c} {v.payload c}"
+      | none => "bad-op"
     | _, _ => "bad-op"
   | _, _ => "bad-op"
 
